@@ -20,6 +20,7 @@ META = dict(
     technique="fold/ordering/alias rules over the AST (loop-skeleton recognisers, def-use, who-may-write)",
 )
 META["text"] += " (R7, N) Contest's constructor stores risk_limit, assertions, winner, n_winners, candidates from its parameters."
+META["text"] += ' (R8 = C06.R3) the test is run with the bound installed from the same mvrs_to_data call as its data.'
 
 REL = "shangrla/core/Audit.py"
 
